@@ -27,7 +27,9 @@
                 segments, VN on F).  Upper-case names that are not predefined are
                 well-formed custom tags (gfapy's tutorial; GFA1 only "reserves" them).
      GFA1       segment name containing "+," or "-,"; a segment list that only parses
-                with commas inside names; `*` as an element of a path's overlap list; a
+                with commas inside names; `*` as an element of a path's overlap list (only
+                while the NUMBER of overlaps fits: a wrong count is rejected whatever the
+                elements are, see PathCountWrong); a
                 path with as many overlaps as segments (circular, gfapy only); empty
                 containment position (the GFA1 table allows zero digits); a negative LN on a
                 segment without sequence; user record types (none in GFA1)
@@ -451,6 +453,13 @@ VPathCount(f) ==
       m == Len(Split(f[4], ",")) IN
   IF f[4] = <<"*">> THEN "acc"
   ELSE V(m = n - 1, m = n)
+\* The SYNTAX of `*` as one of several overlaps is disputed (VAlnList1: "either"), the NUMBER of
+\* overlaps is not: by the GFA1 pattern such a list is malformed, by gfapy's reading it is a list
+\* of m overlaps and the count rule applies to it (only the single `*` stands for "all
+\* unspecified").  So a P line whose segment list is unambiguous (n is certain; elements of the
+\* overlap list never contain a comma, so m is certain) and whose m is neither n-1 nor n is
+\* rejected under every reading, whatever its elements are.
+PathCountWrong(f) == VRefList1(f[3]) = "acc" /\ VAlnList1(f[4]) # "rej" /\ VPathCount(f) = "rej"
 \* GFA2 E/F: begin <= end on each sequence (positions already well-formed)
 PosDigits(p) == IF LastOf(p) = "$" THEN FrontOf(p) ELSE p
 VBegEnd(b, e) == IF IsUInt(PosDigits(b)) /\ IsUInt(PosDigits(e))
@@ -487,6 +496,7 @@ LineVerdict(ver, f, indoc) ==
     ELSE LET p == VPositional(ver, rt, f)
              t == VTags(ver, rt, f, n) IN
          IF p = "rej" \/ t = "rej" THEN "rej"
+         ELSE IF ver = "gfa1" /\ rt = "P" /\ PathCountWrong(f) THEN "rej"   \* certain under every reading
          ELSE IF p = "either" \/ t = "either" THEN "either"   \* cross-field rules need well-formed fields
          ELSE VCross(ver, rt, f, indoc)
   ELSE IF ver = "gfa1" THEN "either"                          \* GFA1 has no user records; the text does not say "error"
